@@ -65,7 +65,19 @@ class Run(object):
         react = scn.get('react_us', 1)
         w, k = self.w, self.k
         mode = scn.get('peer_mode', 'writer')
-        if tr == 'fd':
+        if tr == 'fd' and scn.get('fd_kind') == 'regfile':
+            # a regular file that the peer keeps appending to
+            from .kernel import RegFile
+            rf = RegFile(k)
+            self.regfile = rf
+            fd = k.alloc_fd(rf)
+            self.peer = peers.Actor(w, k, None, peers.writer(rf, [st for st in steps if st.get('op', 'w') == 'w'] + [{'op': 'pause'}],
+                                                             self.wrote), react, 'peer')
+            self.peer.start(0)
+            if 'use_poll' in scn:
+                kw['use_poll'] = scn['use_poll']
+            child = T.SimFdSpawn(fd, **kw)
+        elif tr == 'fd':
             r, wr = k.pipe(cap)
             self.fd_pipe = r
             fd = k.alloc_fd(r)
